@@ -11,7 +11,7 @@ What is ASSUMED is cryptographic strength, as explicit named hypotheses of the l
 (`Unforgeable`, `KeySeparation`) — never as axioms.
 -/
 namespace Munge.C02
-open Munge.Cred Munge.Gen.Dec
+open Munge.Cred Munge.Cred.C Munge.Gen.Dec
 
 /-- outcomes that disclose fields of the credential -/
 def discloses (e : Nat) : Prop :=
